@@ -134,13 +134,19 @@ def _polygon(case, rec):
         V = em["verts"].copy()
         size = 2 * float(np.max(np.linalg.norm(V - V.mean(axis=0), axis=1)))
         u_, v_, _ = geom.plane_frame(em["nplus"])
-        V = V + 10.0 ** case["far"] * size * (0.6 * u_ + 0.8 * v_)
+        far = case["far"]
+        if case["emb"]["place"] is not None:
+            # in a tilted plane the rounded coordinates are off the plane by a few eps*L, and the class tests
+            # |n.v - d| against rtol*|d| + 1e-8 (numpy.isclose with rtol=planar_tolerance, a documented parameter):
+            # beyond 1e5 sizes valid input is refused for that reason alone - a stated limit, not generated
+            far = min(far, 5.0)
+        V = V + 10.0 ** far * size * (0.6 * u_ + 0.8 * v_)
         P2f = np.stack([(V - V.mean(axis=0)) @ u_, (V - V.mean(axis=0)) @ v_], axis=1)
         if not geom.is_simple_polygon_2d(P2f) or len(np.unique(np.round(P2f / (1e-6 * size)), axis=0)) != len(P2f):
             rec.label("outside_domain:rounding_broke_simplicity")
             return
-        sig["far"] = "1e%g" % case["far"]
-        rec.label("far:1e%g" % case["far"])
+        sig["far"] = "1e%g" % far
+        rec.label("far:1e%g" % far)
     expect_ok = True
     if mode == "crossing":
         i, j = case["i"] % n, case["j"] % n
